@@ -21,10 +21,15 @@ import (
 	"verif/internal/overlay"
 )
 
-const (
-	repo  = "/repo"
-	verif = "/verif"
-)
+const repo = "/repo"
+
+// verif is the directory holding the framework (overridable for background runs from a snapshot).
+var verif = func() string {
+	if d := os.Getenv("VERIF_DIR"); d != "" {
+		return d
+	}
+	return "/verif"
+}()
 
 type violation struct {
 	Key    string          `json:"key"`
